@@ -5,6 +5,8 @@ type nat =
 | O
 | S of nat
 
+val option_map : ('a1 -> 'a2) -> 'a1 option -> 'a2 option
+
 val fst : ('a1 * 'a2) -> 'a1
 
 val snd : ('a1 * 'a2) -> 'a2
@@ -197,6 +199,10 @@ module Z :
 
   val mul : z -> z -> z
 
+  val pow_pos : z -> positive -> z
+
+  val pow : z -> z -> z
+
   val compare : z -> z -> comparison
 
   val leb : z -> z -> bool
@@ -284,6 +290,10 @@ val idx : 'a1 list -> n -> 'a1 outcome
 val uidx : 'a1 list -> n -> 'a1 outcome
 
 val countN : n -> n list -> n
+
+val chunks_aux : nat -> 'a1 list -> nat -> 'a1 list list
+
+val chunks : nat -> 'a1 list -> 'a1 list list
 
 val last_opt : 'a1 list -> 'a1 option
 
@@ -1284,3 +1294,43 @@ val sort_asc : n list -> n list
 val index_of : n -> n list -> n -> n option
 
 val text_remap : n list -> n list -> (n list * n) outcome
+
+val vseq_u : n list -> value
+
+val qline_value : n list -> value
+
+val qv_value : qvec -> value
+
+val rss_value : rssupport -> value
+
+val rsq_value : rsq -> value
+
+val bv_value : bitvec -> value
+
+val rsn_value : rsnarrow -> value
+
+val rsw_value : rswide -> value
+
+val i64_bits : z -> n
+
+val inv_value : inventories -> value
+
+val da_value : darray -> value
+
+val pfs_value : pfsupport -> value
+
+val qwt_value : qwt -> pfsupport list option -> value
+
+val code_value : pcode -> value
+
+val decode_value : (n * n) list list -> value
+
+val hq_value : hqwt -> pfsupport list option -> value
+
+val wt_value : bwt -> value
+
+val hq_default : hqwt
+
+val rsn_default : rsnarrow
+
+val rsw_default : rswide
